@@ -38,6 +38,15 @@ Theorem levellist_get_is_newest :
 Proof. exact ll_get_newest. Qed.
 Print Assumptions levellist_get_is_newest.
 
+(* Table files: TableWriter.Write reserves its file number atomically before writing, so along every history and
+   every interleaving of the flush and compaction half-steps (which share the writer) the numbers handed out are pairwise
+   different.  The model itself identifies a table with its content and derives the distinctness it needs from layout
+   validity; this theorem states the implementation-side assumption, which the correspondence check observes (code 19). *)
+Theorem table_file_names_unique :
+  forall cfg acts st ctr, NoDup (run_names cfg st ctr acts) /\ forall x, In x (run_names cfg st ctr acts) -> ctr <= x.
+Proof. intros cfg acts st ctr. exact (table_names_unique_proof cfg acts st ctr). Qed.
+Print Assumptions table_file_names_unique.
+
 (* ---------- non-vacuity: the hypotheses are satisfiable by a history that exercises every kind of action ---------- *)
 
 Definition ex_cfg : dbcfg := mkDbCfg 19 1000000 6 (mkCfg 1 200 1 30).
